@@ -20,7 +20,7 @@ pub fn parts() -> Vec<Box<dyn Part>> {
 
 /// Inputs for C19: weighted towards several simultaneous rule breaks.
 pub fn gen_input(t: &mut Tape, opts: &GenOpts) -> (String, Vec<String>) {
-    match t.weighted(&[5, 2, 2, 2]) {
+    match t.weighted(&[5, 2, 2, 2, 2]) {
         0 => {
             let (item, l) = gen_wild(t, opts);
             (item.render(), l)
@@ -33,11 +33,13 @@ pub fn gen_input(t: &mut Tape, opts: &GenOpts) -> (String, Vec<String>) {
             let (item, l) = gen_soup_item(t);
             (item.render(), l)
         }
-        _ => {
+        3 => {
             let nf = 2 + t.below(3);
             let (item, l) = crate::props::c15::gen_faulty(t, nf);
             (item.render(), l)
         }
+        // the instruction-selection lattice of C16: short inputs that often break several rules at once
+        _ => crate::props::c16::gen_lattice(t),
     }
 }
 
@@ -61,7 +63,7 @@ impl Part for InProcess {
         "C19"
     }
     fn rule(&self) -> String {
-        "Wild / valid / soup / fault-injected (2-4 simultaneous documented misuses) L1 inputs; each is expanded three times in one process (every std HashMap instance gets fresh RandomState keys, so unordered iteration shows up as different orders) and the three results must be equal: same token string, or the same diagnostics in the same order. Non-trivial = rejected with >= 2 distinct diagnostics, or accepted with >= 3 impls; distinct by input text.".into()
+        "Wild / valid / soup / fault-injected (2-4 simultaneous documented misuses) L1 inputs and instruction-selection-lattice inputs (see C16 `lattice`); each is expanded three times in one process (every std HashMap instance gets fresh RandomState keys, so unordered iteration shows up as different orders) and the three results must be equal: same token string, or the same diagnostics in the same order. Non-trivial = rejected with >= 2 distinct diagnostics, or accepted with >= 3 impls; distinct by input text.".into()
     }
     fn cases(&self, tier: Tier) -> usize {
         match tier {
